@@ -356,6 +356,8 @@ func TestCheck(t *testing.T) {
 		stress(t, r, prop)
 	case strings.HasPrefix(part, "lru"):
 		lru(t, r, prop)
+	case strings.HasPrefix(part, "uaf"):
+		uaf(t, r, prop)
 	default:
 		schedPart(t, r, prop)
 	}
@@ -540,6 +542,88 @@ func stress(t *testing.T, r *vk.Run, prop string) {
 			c.Violation("release", "alloc-after-all-del", fmt.Sprintf("alloc.Bytes() is %d above the baseline after every store was deleted", alloc.Bytes()-base), d)
 		}
 		c.FP(vk.Hash64("stress", i), overlapFin)
+		c.End()
+	}
+}
+
+// ---- uaf: long copies out of mmap'd pieces racing eviction ----
+// Pieces of 1-4 MiB live in mmap'd memory; a reader that still touches the buffer after
+// the store let go of it faults (SIGSEGV kills the child, the runner attributes it) or
+// returns bytes that are not the truth.  Readers copy whole pieces in a loop while a
+// mutator fills, finalises and evicts the same pieces.
+func uaf(t *testing.T, r *vk.Run, prop string) {
+	n := r.Env.N(48, 2000)
+	for i := 0; i < n; i++ {
+		if !r.Mine(i) {
+			continue
+		}
+		rng := r.Env.Rng(i)
+		ps := []uint32{1 << 20, 2 << 20, 4 << 20}[rng.IntN(3)]
+		g := smallGeo(ps, 2, []int{0, 5, fixture.Block + 1}[rng.IntN(3)], rng.Uint64())
+		d := map[string]any{"mode": "uaf", "geo": g.Desc()}
+		c := r.Begin(i, d)
+		base := alloc.Bytes()
+		var clk int64
+		s := newStore(c, prop, g, &clk)
+		stop := make(chan struct{})
+		var wg sync.WaitGroup
+		nr := 2 + rng.IntN(5)
+		var reads, withData int64
+		var cmu sync.Mutex
+		for w := 0; w < nr; w++ {
+			wg.Add(1)
+			go func(w int) {
+				defer wg.Done()
+				buf := make([]byte, int(ps))
+				k := 0
+				for {
+					select {
+					case <-stop:
+						return
+					default:
+					}
+					p := k % g.NumPieces()
+					k++
+					off := int64(p) * int64(ps)
+					n, _ := s.ps.ReadAt(buf, off)
+					cmu.Lock()
+					reads++
+					if n > 0 {
+						withData++
+					}
+					cmu.Unlock()
+					if n > 0 && prop == "C01" {
+						tr := g.Truth(off, n)
+						for j := 0; j < n; j += 4099 {
+							if tr[j] != buf[j] {
+								c.Violation("content", "read-content uaf", fmt.Sprintf("ReadAt of a %d-byte piece returned a byte that differs from the truth at +%d while the piece was being evicted and refilled", n, j), d)
+								return
+							}
+						}
+					}
+				}
+			}(w)
+		}
+		rounds := 12
+		for round := 0; round < rounds && !c.Violated(); round++ {
+			for p := 0; p < g.NumPieces(); p++ {
+				for _, o := range fillOps(g, p) {
+					s.exec(90, o, 0)
+				}
+				s.exec(90, op{K: opFin, P: p, Var: "right"}, 0)
+			}
+			time.Sleep(time.Duration(50+rng.IntN(300)) * time.Microsecond)
+			s.exec(90, op{K: opExpire, Target: 0}, 0)
+		}
+		close(stop)
+		wg.Wait()
+		c.Count("uaf_reads", reads)
+		c.Count("uaf_reads_with_data", withData)
+		s.exec(90, op{K: opDel}, 0)
+		if prop == "C03" && alloc.Bytes() != base {
+			c.Violation("release", "alloc-after-del uaf", fmt.Sprintf("alloc.Bytes() is %d above the baseline", alloc.Bytes()-base), d)
+		}
+		c.FP(vk.Hash64("uaf", ps, nr), withData > 0)
 		c.End()
 	}
 }
